@@ -115,7 +115,7 @@ def run(chk):
                 "retries, batching) for the real async_map_unordered in virtual time; a case is non-trivial if a failure, "
                 "a backup or a refill occurred; distinct = distinct event-shape of the recorded trace")
     model_check(chk)
-    nscripts = 400 if chk.tier == "quick" else 6000
+    nscripts = 250 if chk.tier == "quick" else 6000
     scripts = gen_scripts(rng, nscripts)
     runs = []
     for sc in scripts:
